@@ -25,7 +25,7 @@ META = {
                    'appear with their X lines, forgiven branches do not. _format_trace_value is checked separately with symbolic '
                    'maxlen / repr length, and format_target_spec_trace with symbolic width.',
     'bounds': {
-        'quick': {'skeleton depth': 2, 'node kinds': 9, 'fault kinds': '7 (callable raises Boom / KeyError / a class with its own __str__, missing key, Match reject, Check fail, unbound scope variable)', 'fault position p': 'symbolic', 'targets': 'short, long (truncated), non-ASCII',
+        'quick': {'skeleton depth': 2, 'node kinds': 9, 'fault kinds': '8 (callable raises Boom / Boom with a multi-line message holding caret and blank lines / KeyError / a class with its own __str__, missing key, Match reject, Check fail, unbound scope variable)', 'fault position p': 'symbolic', 'targets': 'short, long (truncated), non-ASCII',
                   'width': '50..120 via format_target_spec_trace(width=)', 'maxlen': '14..120'},
         'thorough': {'skeleton depth': '2 (all child kinds) and 3 (chains)'},
     },
@@ -45,7 +45,11 @@ PLANT = [None, None]
 RECEIVED = {}
 FAILED = []
 FAULT = [0]
-FAIL_SPECS = [None, T['nope'], Match('never-equal-to-this'), Check(equal_to='never-equal-to-this'), S['never_bound'], None, None]
+FAIL_SPECS = [None, T['nope'], Match('never-equal-to-this'), Check(equal_to='never-equal-to-this'), S['never_bound'], None, None, None]
+
+
+# a message as parsers print them: a pointer line made of spaces and carets, a blank line, more text
+MULTILINE = 'bad token, planted at %s\n  x = $\n      ^\n\n  ~~~\nsee above'
 
 
 class StrBoom(Exception):
@@ -73,6 +77,8 @@ class Leaf:
                 raise KeyError('planted at %s' % self.tag)
             if FAULT[0] == 6:
                 raise StrBoom('planted at %s' % self.tag)
+            if FAULT[0] == 7:
+                raise Boom(MULTILINE % self.tag)
             return scope[gc.glom](target, FAIL_SPECS[FAULT[0]], scope)
         return target
 
@@ -204,7 +210,11 @@ def trace_shape(root: int, c0: int, c1: int, p: int, fault: int, tkind: int) -> 
     want_last = ''.join(traceback.format_exception_only(type(orig), orig))[:-1].splitlines()[-1]
     if 'str() failed' in s:
         return fail(why='the message of the original error could not be rendered', last=lines[-1])
-    if fault in (0, 5, 6):
+    if fault == 7:
+        want_end = 'Boom: ' + MULTILINE % FAILED[0]
+        if not s.endswith(want_end):
+            return fail(why='the trace must end with the type and the WHOLE message of the original error', tail=s[-160:], want=want_end)
+    elif fault in (0, 5, 6):
         want_end = ['Boom: planted at %s' % FAILED[0], None, None, None, None, "KeyError: 'planted at %s'" % FAILED[0],
                     "StrBoom: custom text of ('planted at %s',)" % FAILED[0]][fault]
         if not (lines[-1].endswith(want_end)):
@@ -309,9 +319,28 @@ def trace_branches(root: int, c0: int, c1: int, p: int, q: int) -> bool:
 def branch_kinds(kind: int, n_fail: int) -> bool:
     """Coalesce / Or / Switch: every attempted branch and the error that ended it appear"""
     start()
-    kind, n_fail = concretize(kind, 0, 4), concretize(n_fail, 2, 3)
+    kind, n_fail = concretize(kind, 0, 7), concretize(n_fail, 2, 3)
     if kind is OUT or n_fail is OUT:
         return True
+    if kind >= 5:
+        # the KEY spec of a Switch case / Match-dict entry is itself branching and passes only after a failed alternative;
+        # then the VALUE spec of that case raises: the abandoned alternative of the key must not show, the trace is linear
+        spec, tgt = [(Switch([(Or('x', 'a'), T['nope'])]), {'a': 1}), (Switch([(Coalesce('x', 'y', 'a'), T['nope'])]), {'a': 1}),
+                     (Match({Or('zz', 'yy', 'a'): Check(type=str)}), {'a': 1})][kind - 5]
+        try:
+            glom(tgt, spec)
+            return fail(why='expected failure')
+        except GlomError as e:
+            s = str(e)
+        parsed = parse(s)
+        if parsed is None:
+            return fail(why='header', s=s)
+        body = parsed[1]
+        reach('branch_kinds')
+        leaked = [l for l in body if re.match(r'^ [|]', l) or "Spec: 'x'" in l or "Spec: 'zz'" in l or "Spec: 'y'" in l or "Spec: 'yy'" in l]
+        texts = [_strip(l, 'Spec') for l in body if SPEC_LINE.match(l)]
+        want_last = "T['nope']" if kind < 7 else 'Check(type=str)'
+        return (not leaked and texts and texts[-1] == want_last) or fail(why='abandoned alternatives of the key spec leaked into the trace of the value spec', leaked=leaked, texts=texts)
     fails = [T['nope%d' % i] for i in range(3)]
     ok = Val('fine')
     kids = fails[:n_fail] + ([ok] if kind not in (3, 4) else [])
@@ -554,8 +583,8 @@ def obligations(tier):
     kinds = kinds_q if q else list(range(9)) + [LEAF]
     ck = '(' + ' or '.join('{v} == %d' % k for k in kinds) + ')'
     for root in range(9):
-        for fault in range(7):
-            if q and fault != (root % 7) and fault != 0 and fault != ((root + 3) % 7):
+        for fault in range(8):
+            if q and fault != (root % 8) and fault != 0 and fault != ((root + 3) % 8):
                 continue
             fx = {'root': root, 'fault': fault, 'tkind': (root + fault) % 3}
             pre = ck.format(v='c0') + ' and ' + ck.format(v='c1') + ' and 0 <= p <= 4'
@@ -575,7 +604,7 @@ def obligations(tier):
                 pre = '0 <= p <= 3 and 0 <= q <= 4'
             obs.append(Ob(trace_branches, fixed=fx, pre=pre, name='trace_branches_%s_%s' % (KINDS[root], 'leaf' if c0 == LEAF else KINDS[c0]),
                           timeout=300 if q else 1200, path_timeout=60))
-    obs.append(Ob(branch_kinds, pre='0 <= kind <= 4 and 2 <= n_fail <= 3', name='branch_kinds', timeout=200))
+    obs.append(Ob(branch_kinds, pre='0 <= kind <= 7 and 2 <= n_fail <= 3', name='branch_kinds', timeout=200))
     obs.append(Ob(equal_targets, pre='0 <= kind <= 3 and 0 <= where <= 1', name='equal_targets', timeout=200))
     obs.append(Ob(recovered_outer, pre='0 <= inner <= 2 and 0 <= rec <= 3 and 0 <= outer <= 2', name='recovered_outer', timeout=300))
     obs.append(Ob(rendered_before, pre='0 <= how <= 3 and 0 <= depth <= 2 and 0 <= wrap <= 2', name='rendered_before', timeout=300))
